@@ -66,10 +66,13 @@ def mkcase(cid, text, files=(), origin="generated", second=None, kind="", pretex
 class C02(Prop):
     id = "C02"
     title = "Compiling any source text is safe and leaves the compiler reusable"
-    lean_modules = ["NV.C02.Props", "NV.C02.Witness"]
+    lean_modules = ["NV.C02.Props", "NV.C02.Witness", "NV.C02.LemmasBuf", "NV.C02.Emit"]
     theorems = ["NV.C02.table_writes_in_bounds", "NV.C02.table_cursors_in_allocation", "NV.C02.mem_block_fits",
                 "NV.C02.include_depth_bounded", "NV.C02.include_stack_empty_after_end", "NV.C02.lexer_flag_clear_after_start", "NV.C02.yytext_in_bounds",
-                "NV.C02.scratch_writes_in_bounds", "NV.C02.scratch_empty_after_destroy", "NV.C02.idents_restored", "NV.C02.locals_reset_after_cleanup"]
+                "NV.C02.scratch_writes_in_bounds", "NV.C02.scratch_empty_after_destroy", "NV.C02.idents_restored", "NV.C02.locals_reset_after_cleanup",
+                "NV.C02.add_input_writes_in_bounds", "NV.C02.add_input_never_nests", "NV.C02.macro_args_in_bounds",
+                "NV.C02.macro_body_in_bounds", "NV.C02.define_text_in_bounds", "NV.C02.terminator_in_bounds",
+                "NV.C02.include_macro_hops_bounded", "NV.C02.reserved_covers_written", "NV.C02.code_writes_in_block"]
     witness_theorems = []
     # how far a STORE_* macro of lib/port/byte_code.h advances the code pointer = what ins_* writes (MEASURED by
     # running the macro in the probe, not copied)
@@ -81,7 +84,7 @@ class C02(Prop):
               ("wrLong", _adv % ("int64_t", "STORE_LONG")), ("wrReal", _adv % ("double", "STORE_FLOAT")),
               ("wrPtr", "(sizeof (intptr_t) == 4) ? " + _adv % ("intptr_t", "STORE4") + " : " + _adv % ("intptr_t", "STORE8"))]
     const_headers = ["lib/lpc/lex.h", "lib/lpc/compiler.h", "lib/misc/scratchpad.h", "lib/port/byte_code.h"]
-    quick_n = 900
+    quick_n = 750
     thorough_n = 4000
     search_n = 600
     design_ref = "5/C02"
@@ -403,6 +406,41 @@ class C02(Prop):
             mk("pad-edge-string-%d" % e, padfill([e], '"%s"' % ("s" * 200), nfull=15))
         for e in range(238, 255):
             mk("pad-edge-ident-%d" % e, padfill([60], "z" * e, nfull=15))
+        # extend round: the text buffers of the preprocessor (F22 - F27) at their edges
+        mk("include-macro-self", "#define X X\n#include X\nint a;\n")
+        mk("include-macro-cycle", "#define A B\n#define B C\n#define C A\n#include A\nint a;\n")
+        mk("include-macro-chain", "#define A B\n#define B \"inc0.h\"\n#include A\nint a;\n", [("inc0.h", "int inc0;\n")])
+        for n in (1000, 1019, 1023, 1024, 1025, 1030, 3001):
+            body = "a" * n
+            cont = "\\\n".join(body[i:i + 900] for i in range(0, n, 900))
+            mk("terminator-macro-%d" % n, "#define M @%s\nstring f() { return M\nfoo\n%s\n; }\n" % (cont, body))
+        for c in (9960, 9975, 9980, 9984, 9985, 9990):
+            body = "1" * c
+            lines = "\n".join(body[i:i + 900] for i in range(0, c, 900))
+            for commas in (1, 24, 25):
+                mk("macro-arg-%d-commas-%d" % (c, commas), "#define F(a) a\nint x = F(" + lines + "," * commas + ");\n")
+            mk("macro-arg-%d-hash" % c, "#define F(a) a\nint x = F(" + lines + "##" * 4 + ");\n")
+            mk("macro-arg-%d-bslash" % c, "#define F(a) a\nint x = F(" + lines + ' "' + "\\\\" * 4 + '");\n')
+        for p_ in range(4, 13):
+            mk("macro-body-marks-%d" % p_, "#define G(a) a a a a a a a a a a" + "+" * p_ + "@\nint x = G(" + "b" * 998 + ");\n")
+            mk("macro-body-arg-%d" % p_, "#define G(a) a a a a a a a a a" + "+" * p_ + "a\nint x = G(" + "b" * 998 + ");\n")
+        for c in range(4084, 4096):
+            txt = "x" * c
+            lines = "\\\n".join(txt[i:i + 900] for i in range(0, c, 900))
+            mk("define-text-param-at-%d" % c, "#define H(a) " + lines + " a@\nint y;\n")
+            mk("define-text-obj-%d" % c, "#define H " + lines + "@\nint y;\n")
+        mk("define-empty-continuation", "#define K a\\\n\nint y;\n")
+        mk("define-fn-empty-continuation", "#define K(a) a\\\n\nint y = K(1);\n")
+        mk("define-continuation-eof", "#define K a\\")
+        # add_input: expansions that no longer fit in front of the cursor (linked buffer) and their neighbours
+        for n in (900, 1000, 1010):
+            mk("add-input-linked-%d" % n, "#define A %s\n#define B A A A A A A\nint x; string s = \"B\"; int y = 0 B;\n" % ("+1" * (n // 2)))
+        mk("add-input-recursive", "#define R R R\nint x = R;\n")
+        mk("add-input-text-block-tail", "string f() { return @END\n%s\nEND + \"tail\"; }\n" % "\n".join("line %d" % i for i in range(700)))
+        # extend round: every kind of emitted item across every alignment of the first code block boundary
+        for kind, expr in self.EMIT_KINDS:
+            for t in range(20, 48):
+                B.append(self.emit_case("b-emit-%s-%d" % (kind, t), expr, 1012, t, "boundary"))
         mk("include-ends-in-comment", '#include "c.h"\nint after;\n', [("c.h", "int inc_var; // trailing comment without newline")])
         mk("file-ends-in-comment", "int x; // no newline at end")
         mk("two-sources", "void f() { int time; { int time; } }", second="int g() { return time(); }")
@@ -410,6 +448,27 @@ class C02(Prop):
         mk("nul-bytes", "int x;\x00\x00 int y;\n")
         mk("high-bytes", "int \xff\xfe x; string s = \"\xe4\xb8\xad\";\n")
         return B
+
+    # what is emitted right behind the padding: (name, statement); the item widths are ins_byte/short/int/long/real/intptr
+    EMIT_KINDS = [("real", "return 1.5;"), ("int", "return 70000;"), ("long", "return 5000000000;"), ("short", "return 300;"),
+                  ("string", "return \"s\";"), ("funptr", "return (: q :);"), ("branch", "if (x) return 1; return 2;"),
+                  ("switch", "switch (x) { case 1: return 1; case 70000: return 2; default: return 3; }")]
+
+    @staticmethod
+    def emit_pad(p, unit="a=b;"):
+        out = []
+        i = 0
+        while p > 0:
+            k = min(p, 100)
+            out.append("void p%d() { int a, b;\n%s}\n" % (i, (unit + "\n") * k))
+            p -= k
+            i += 1
+        return "".join(out)
+
+    def emit_case(self, cid, stmt, p, t, origin, kind="emit"):
+        """p four-byte statements, then t one-byte operators, then the item: sweeping t moves the item byte by byte"""
+        text = self.emit_pad(p) + "void q() { int a, b; a = %sb; }\n" % ("~ " * t) + "mixed f(int x) { %s }\n" % stmt
+        return E.Case(cid, ["probe"] + src_lines(text) + ["compile", "probe"], {"origin": origin, "kind": kind})
 
     @staticmethod
     def nest(n, body="return 1;"):
@@ -644,9 +703,14 @@ class C02(Prop):
     def generate(self, rng, n, tier):
         out = []
         for i in range(n):
-            k = rng.weighted([("bytes", 2), ("tok", 4), ("gram", 9)])
+            k = rng.weighted([("bytes", 2), ("tok", 4), ("gram", 9), ("emit", 1)])
             cid = "g%d" % i
-            if k == "bytes":
+            if k == "emit":
+                # an item of a random kind close to a code block boundary (4096, 8192, 16384)
+                kind, stmt = rng.choice(self.EMIT_KINDS)
+                bnd = rng.weighted([(4096, 4), (8192, 2), (16384, 1)])
+                out.append(self.emit_case(cid, stmt, (bnd - 48) // 4 - (bnd // 400), rng.below(64), "generated", "emit-%d" % bnd))
+            elif k == "bytes":
                 out.append(self.gen_bytes(rng, cid))
             elif k == "tok":
                 out.append(self.gen_tokmut(rng, cid))
